@@ -14,6 +14,8 @@ import (
 
 func init() {
 	register(&Property{ID: "C05", Run: runC05, Mutants: []Mutant{
+		{Name: "memory emptiness ignores the address type", File: "internal/wat/printer/printer_empty.go", Old: "if zero := new(ast.Memory); *zero == *p.m.Memory {", New: "if zero := (ast.Memory{AddrType: p.m.Memory.AddrType}); zero == *p.m.Memory {", Expect: "empty-predicate-whole-value"},
+		{Name: "inline func exports merged before inline global exports", File: "internal/wat/parser/module.go", Old: "\tfor _, g := range p.module.Globals {\n\t\tif g.ExportName != \"\" {\n\t\t\tp.module.Exports = append(p.module.Exports, &ast.ExportSpec{\n\t\t\t\tName:      g.ExportName,\n\t\t\t\tKind:      token.GLOBAL,\n\t\t\t\tGlobalIdx: g.Name,\n\t\t\t})\n\t\t}\n\t}\n", New: "", Expect: "inline-export-merge-order"},
 		{Name: "printer drops the memory.init data index", File: "internal/wat/printer/printer_funcs.go", Old: "fmt.Fprintln(w, tok, ins.(ast.Ins_MemoryInit).DataIdx)", New: "fmt.Fprintln(w, tok)", Expect: "ins-field-coverage :: memory.init"},
 		{Name: "printer elides align=1 for i64.store16 (legal, not the default)", File: "internal/wat/printer/printer_funcs.go", Old: "insStore := ins.(ast.Ins_I64Store16)\n\t\tif x := insStore.Offset; x != 0 {\n\t\t\tfmt.Fprintf(w, \" offset=%d\", x)\n\t\t}\n\t\tif x := insStore.Align; x != 2 {", New: "insStore := ins.(ast.Ins_I64Store16)\n\t\tif x := insStore.Offset; x != 0 {\n\t\t\tfmt.Fprintf(w, \" offset=%d\", x)\n\t\t}\n\t\tif x := insStore.Align; x != 1 {", Expect: "elision-default :: i64.store16"},
 		{Name: "printer stops printing else branches", File: "internal/wat/printer/printer_funcs.go", Old: "\t\t\tfor _, x := range insIf.Else {\n\t\t\t\twatPrinter_printFuncs_body_ins(w, indent, x, blkLevel+1)\n\t\t\t}\n", New: "", Expect: "nested-body :: if"},
@@ -73,6 +75,8 @@ func runC05(c *Ctx) {
 		return
 	}
 	info := pp.TypesInfo
+	c05EmptyPredicates(c, p, pp)
+	c05ExportMergeOrder(c, p, pr, pp)
 	ptypes := watParserTypes(pr)
 	c.Min(rEx, "parser token->type rows", len(ptypes), 170)
 	astFields := StructFields(as)
